@@ -468,7 +468,7 @@ func seqOf(al map[string]pdgram, names ...string) []pdgram {
 	return s
 }
 
-func explorePipe(c *mck.Ctx, it pipeItem, body func(out *pipeObs, mu *realsync.Mutex), check func(o pipeObs) (string, string), timerJumps bool) {
+func explorePipe(c *mck.Ctx, it pipeItem, body func(out *pipeObs, mu *realsync.Mutex), check func(o pipeObs) (string, string), timerJumps bool, shard, nshards int) {
 	var mu realsync.Mutex
 	var obs pipeObs
 	desc := func() interface{} {
@@ -553,7 +553,49 @@ func explorePipe(c *mck.Ctx, it pipeItem, body func(out *pipeObs, mu *realsync.M
 	}
 	maxExec := 0
 	fmt.Sscan(os.Getenv("VERIF_MAXEXEC"), &maxExec)
-	st := sched.Explore(sched.Config{Bound: it.bound, TimerJumps: timerJumps, OnExec: onExec, MaxExec: maxExec}, bodyFn)
+	// The schedule tree is split by its first deviation: the default execution gives the list of
+	// decisions; every (decision p, alternative a) is the root of the subtree of all executions whose
+	// first deviation is a at p. Roots are dealt round-robin to the nshards work units of this
+	// scenario; unit 0 also owns the default execution. The union is exactly the bounded tree.
+	var st sched.Stats
+	st.Complete = true
+	var rootAlts []int
+	sched.Explore(sched.Config{Bound: 0, MaxExec: 1, TimerJumps: timerJumps, OnExec: func(r *sched.Result) {
+		rootAlts = append([]int{}, r.Alts...)
+		if shard == 0 {
+			onExec(r)
+		} else {
+			mu.Lock()
+			obs = pipeObs{}
+			mu.Unlock()
+			check(pipeObs{})
+			newRaceReport()
+		}
+	}}, bodyFn)
+	if shard == 0 {
+		st.Executions++
+	}
+	st.MaxDepth = len(rootAlts)
+	k := 0
+	for p := 0; p < len(rootAlts) && it.bound >= 1; p++ {
+		for a := 1; a < rootAlts[p]; a++ {
+			k++
+			if k%nshards != shard {
+				continue
+			}
+			prefix := make([]int, p+1)
+			prefix[p] = a
+			s2 := sched.Explore(sched.Config{Bound: it.bound, Prefix: prefix, TimerJumps: timerJumps, OnExec: onExec, MaxExec: maxExec}, bodyFn)
+			st.Executions += s2.Executions
+			if s2.MaxDepth > st.MaxDepth {
+				st.MaxDepth = s2.MaxDepth
+			}
+			if !s2.Complete {
+				st.Complete = false
+			}
+		}
+	}
+	c.Count("subtree_roots_total", uint64(k)/uint64(nshards))
 	c.Count("executions", uint64(st.Executions))
 	c.Depth(uint64(st.MaxDepth))
 	if !st.Complete {
@@ -581,14 +623,15 @@ func explorePipe(c *mck.Ctx, it pipeItem, body func(out *pipeObs, mu *realsync.M
 	})
 }
 
-func pipeSpace(items func(tier string) []pipeItem) func(string) mck.Space {
+func pipeSpace(items func(tier string) []pipeItem, K int) func(string) mck.Space {
 	return func(tier string) mck.Space {
 		its := items(tier)
-		return mck.FuncSpace{N: uint64(len(its)), F: func(idx uint64, c *mck.Ctx) {
-			it := its[idx]
+		return mck.FuncSpace{N: uint64(len(its) * K), F: func(idx uint64, c *mck.Ctx) {
+			it := its[idx/uint64(K)]
+			shard := int(idx % uint64(K))
 			exp := expectFor(&it.run)
 			explorePipe(c, it, func(out *pipeObs, mu *realsync.Mutex) { r := it.run; runPipe(&r, out, mu) },
-				func(o pipeObs) (string, string) { return checkPipe(&it.run, exp, o) }, false)
+				func(o pipeObs) (string, string) { return checkPipe(&it.run, exp, o) }, false, shard, K)
 		}}
 	}
 }
@@ -671,9 +714,223 @@ func c13Items(tier string) []pipeItem {
 	return out
 }
 
+// ---- C15: SIGTERM stops the collector cleanly and templates survive the restart ----------
+
+type shutItem struct {
+	name     string
+	proto    int
+	workers  int
+	udpCap   int
+	inflight []string // datagrams delivered around the signal
+	after    int      // how many of them are delivered AFTER the signal
+	bound    int
+}
+
+// mainReplica is main()'s orchestration (vflow.go: start every protocol, wait for the signal,
+// shut every protocol down, wait) with the options already in place. GetOptions (flag parsing,
+// PID file, kill -0) cannot be re-run per execution, so these lines are replicated here; the
+// run() and shutdown() it calls are the real ones.
+func mainReplica(protos []proto) {
+	var wg sync.WaitGroup
+	signalCh := make(chan os.Signal, 1)
+	venv.SignalNotify(signalCh)
+	for _, p := range protos {
+		wg.Add(1)
+		p := p
+		sched.Go(func() {
+			defer wg.Done()
+			p.run()
+		})
+	}
+	sched.ChanRecv(signalCh)
+	<-signalCh
+	for _, p := range protos {
+		wg.Add(1)
+		p := p
+		sched.Go(func() {
+			defer wg.Done()
+			p.shutdown()
+		})
+	}
+	wg.Wait()
+}
+
+type shutObs struct {
+	phase      string
+	exitNs     int64
+	fileErr    string
+	hasT1      bool
+	restartPub []string
+}
+
+func sendSignal() {
+	sched.Point("signal")
+	venv.SignalChan() <- os.Interrupt
+}
+
+func runShutdown(it shutItem, al map[string]pdgram, cacheFile string, out *shutObs, mu *realsync.Mutex) {
+	os.Remove(cacheFile)
+	var o shutObs
+	set := func() { mu.Lock(); *out = o; mu.Unlock() }
+	for cycle := 0; cycle < 2; cycle++ {
+		o.phase = fmt.Sprintf("cycle %d: start", cycle)
+		set()
+		pr := resetPipe(pipeCfg{proto: it.proto, workers: it.workers, udpCap: it.udpCap, mqCap: 1000, cache: cacheFile})
+		mainTid := sched.GoNamed("main", func() { mainReplica([]proto{pr}) })
+		port := pipePort(it.proto)
+		sched.WaitCond(func() bool { return venv.Conn(port) != nil && venv.SignalChan() != nil }, "listening")
+		conn := venv.Conn(port)
+		if cycle == 0 {
+			if it.proto == ppIPFIX || it.proto == ppV9 {
+				// T1 is acknowledged: delivered and fully processed before anything else happens
+				conn.Deliver(al["template"].ip, 50000, al["template"].wire)
+				sched.Quiesce()
+			}
+		} else if it.proto == ppIPFIX || it.proto == ppV9 {
+			// after the restart: data for T1 must decode at once, without the template being resent
+			conn.Deliver(al["t1-data"].ip, 50000, al["t1-data"].wire)
+			sched.Quiesce()
+			mq := pipeMQ(it.proto)
+			for len(mq) > 0 {
+				o.restartPub = append(o.restartPub, string(<-mq))
+			}
+		}
+		o.phase = fmt.Sprintf("cycle %d: traffic+signal", cycle)
+		set()
+		n := len(it.inflight)
+		for i, name := range it.inflight {
+			if i == n-it.after {
+				sendSignal()
+			}
+			conn.Deliver(al[name].ip, 50000, al[name].wire)
+		}
+		if it.after == 0 {
+			sendSignal()
+		}
+		t0 := sched.Now()
+		o.phase = fmt.Sprintf("cycle %d: waiting for exit", cycle)
+		set()
+		sched.Join(mainTid)
+		if d := sched.Now() - t0; d > o.exitNs {
+			o.exitNs = d
+		}
+		// the process is gone now: let the goroutines that main() does not wait for (workers
+		// draining the closed queue) run out before the "new process" re-creates the globals
+		sched.Quiesce()
+		sched.ProcessBoundary()
+		if it.proto == ppIPFIX || it.proto == ppV9 {
+			// the file left behind must load and hold T1
+			k := al["template"]
+			if _, err := os.Stat(cacheFile); err != nil {
+				o.fileErr = "no cache file written: " + err.Error()
+			} else if it.proto == ppIPFIX {
+				_, o.hasT1 = ipfix.VerifRetrieve(ipfix.GetCache(cacheFile), 300, append(net.IP{}, k.ip...))
+			} else {
+				_, o.hasT1 = netflow9.VerifRetrieve(netflow9.GetCache(cacheFile), 300, append(net.IP{}, k.ip...))
+			}
+			if !o.hasT1 && o.fileErr == "" {
+				o.fileErr = fmt.Sprintf("cycle %d: cache file does not hold the template acknowledged before the signal", cycle)
+			}
+		}
+		o.phase = fmt.Sprintf("cycle %d: done", cycle)
+		set()
+	}
+}
+
+func c15Items(tier string) []shutItem {
+	var out []shutItem
+	for _, p := range []int{ppIPFIX, ppV9, ppV5, ppSFlow} {
+		flow := p == ppIPFIX || p == ppV9
+		if tier == "thorough" {
+			for _, w := range []int{1, 2} {
+				for _, cap := range []int{1000, 1} {
+					out = append(out, shutItem{"idle", p, w, cap, nil, 0, 3})
+					out = append(out, shutItem{"data before the signal", p, w, cap, []string{"dataB-short", "dataA-mid"}, 0, 2})
+					out = append(out, shutItem{"data around the signal", p, w, cap, []string{"dataB-short", "dataA-mid", "dataB-short"}, 2, 2})
+					if flow {
+						out = append(out, shutItem{"template burst around the signal", p, w, cap, []string{"inband-tpl", "inband-data", "template", "dataB-short"}, 2, 2})
+					}
+				}
+			}
+			continue
+		}
+		out = append(out, shutItem{"idle", p, 1, 1000, nil, 0, 2})
+		b := 1
+		if p == ppIPFIX || p == ppSFlow {
+			b = 2
+		}
+		out = append(out, shutItem{"data before the signal", p, 1, 1000, []string{"dataB-short", "dataA-mid"}, 0, b})
+		out = append(out, shutItem{"data around the signal", p, 1, 1, []string{"dataB-short", "dataA-mid", "dataB-short"}, 2, 1})
+		out = append(out, shutItem{"data around the signal", p, 2, 1000, []string{"dataB-short", "dataA-mid"}, 1, 1})
+		if flow {
+			out = append(out, shutItem{"template burst around the signal", p, 2, 1000, []string{"inband-tpl", "inband-data", "template", "dataB-short"}, 2, 1})
+		}
+	}
+	return out
+}
+
+func c15Space(tier string) mck.Space {
+	its := c15Items(tier)
+	const K = 4
+	return mck.FuncSpace{N: uint64(len(its) * K), F: func(idx0 uint64, c *mck.Ctx) {
+		idx := idx0 / K
+		shard := int(idx0 % K)
+		it := its[idx]
+		al := alphabet(it.proto)
+		if it.proto == ppIPFIX || it.proto == ppV9 {
+			// data for template 300 (announced by the "template" datagram of exporter A)
+			_, t1, _ := flowTemplates(it.proto == ppV9)
+			t := ref.Template{ID: 300, Fields: t1.Fields}
+			al["t1-data"] = pdgram{"t1-data", expA, (&ref.Msg{V9: it.proto == ppV9, Hdr: [5]uint32{1, 5, 6, 7, 8}, Sets: []ref.Set{{Kind: ref.SetData, TemplateID: 300, Records: []ref.Record{flowRec(t, 33)}}}}).Encode(map[uint16]ref.Template{300: t})}
+		}
+		cacheFile := filepath.Join(pipeTmpGet(), fmt.Sprintf("c15-%d.cache", idx0))
+		// expected publication after the restart: standalone decode of t1-data with T1 known
+		wantRestart := ""
+		if d, ok := al["t1-data"]; ok {
+			pre := filepath.Join(pipeTmpGet(), fmt.Sprintf("c15-pre-%d.cache", idx0))
+			cc := flowh.NewCaches()
+			flowh.Decode(it.proto == ppV9, al["template"].ip, al["template"].wire, cc)
+			if it.proto == ppV9 {
+				cc.N.Dump(pre)
+			} else {
+				cc.I.Dump(pre)
+			}
+			_, wantRestart = standalone(it.proto, d, pre, nil)
+		}
+		pit := pipeItem{name: fmt.Sprintf("%s workers=%d queue=%d after-signal=%d [unit %d/%d]", it.name, it.workers, it.udpCap, it.after, shard, K), run: pipeRun{proto: it.proto, workers: it.workers}, bound: it.bound}
+		for _, n := range it.inflight {
+			pit.run.seq = append(pit.run.seq, al[n])
+		}
+		var so shutObs
+		var smu realsync.Mutex
+		explorePipe(c, pit, func(out *pipeObs, mu *realsync.Mutex) { runShutdown(it, al, cacheFile, &so, &smu) },
+			func(o pipeObs) (string, string) {
+				smu.Lock()
+				s := so
+				so = shutObs{}
+				smu.Unlock()
+				name := ppNames[it.proto]
+				if s.phase != "cycle 1: done" {
+					return name + ":shutdown:did-not-finish", "the harness stopped in phase: " + s.phase
+				}
+				if s.exitNs > 3e9 {
+					return name + ":shutdown:slow-exit", fmt.Sprintf("the collector needed %.1f virtual seconds to exit after the signal", float64(s.exitNs)/1e9)
+				}
+				if s.fileErr != "" {
+					return name + ":shutdown:templates-lost", s.fileErr
+				}
+				if wantRestart != "" && (len(s.restartPub) != 1 || s.restartPub[0] != wantRestart) {
+					return name + ":shutdown:restart-decode", fmt.Sprintf("after the restart data for the saved template was not decoded at once: published %v, expected %s", s.restartPub, wantRestart)
+				}
+				return "", ""
+			}, true, shard, K)
+	}}
+}
+
 var pipeSpaces = map[string]func(string) mck.Space{
-	"pipe.c12": pipeSpace(c12Items),
-	"pipe.c13": pipeSpace(c13Items),
+	"pipe.c15": c15Space,
+	"pipe.c12": pipeSpace(c12Items, 2),
+	"pipe.c13": pipeSpace(c13Items, 1),
 }
 
 func main() { mck.Main(pipeSpaces) }
